@@ -2,7 +2,7 @@
    about Model/Fem.v at exact real arithmetic.  Only statements closed by [exact]. *)
 From Coq Require Import Permutation List Reals.
 From LaPyV Require Import Base.Scalar Base.Vec3 Base.ListAux Base.Sparse Model.TetMesh Model.Fem
-  Proofs.SparseP Proofs.TetMeshP Proofs.FemTriaP Proofs.FemTetP Proofs.FemAnisoP Proofs.FemInvarP.
+  Proofs.SparseP Proofs.TetMeshP Proofs.FemTriaP Proofs.FemTetP Proofs.FemAnisoP Proofs.FemInvarP Proofs.FemTetInvarP.
 Import ListNotations.
 Open Scope R_scope.
 
@@ -136,3 +136,22 @@ Theorem C01_stiffness_invariant_under_element_reordering : forall v ts ts' f g,
   tria_nondeg v ts' /\ bil f (fem_tria_A Rops v ts') g = bil f (fem_tria_A Rops v ts) g.
 Proof. exact stiffness_form_invariant_under_element_order. Qed.
 Print Assumptions C01_stiffness_invariant_under_element_reordering.
+
+(* ---- the same for tetrahedra: any of the 24 orders of the four indices of each tetrahedron (generated by the three adjacent
+   transpositions; either orientation) ... *)
+Theorem C01_tetra_stiffness_invariant_under_any_order_of_index_quadruples : forall v ts ts' f g,
+  tet_nondeg v ts -> Forall2 tvariant ts ts' ->
+  tet_nondeg v ts' /\ bil f (fem_tet_A Rops v ts') g = bil f (fem_tet_A Rops v ts) g.
+Proof. exact tet_stiffness_form_invariant_under_index_order. Qed.
+Print Assumptions C01_tetra_stiffness_invariant_under_any_order_of_index_quadruples.
+
+(* ... and any reordering of the tetrahedra *)
+Theorem C01_tetra_stiffness_invariant_under_element_reordering : forall v ts ts' f g,
+  tet_nondeg v ts -> Permutation ts ts' ->
+  tet_nondeg v ts' /\ bil f (fem_tet_A Rops v ts') g = bil f (fem_tet_A Rops v ts) g.
+Proof. exact tet_stiffness_form_invariant_under_element_order. Qed.
+Print Assumptions C01_tetra_stiffness_invariant_under_element_reordering.
+
+Example C01_tetra_orders_reach_reversal_and_cyclic_shift : forall a b c d : nat,
+  tvariant (a, b, c, d) (d, c, b, a) /\ tvariant (a, b, c, d) (b, c, d, a).
+Proof. exact tvariant_examples. Qed.
